@@ -138,6 +138,13 @@ def run(tier, seed):
         rng.shuffle(order)
         r["twin"] = {"by": "perm", "order": order}
         rs.append(r)
+    for r in ac.real_family_cases(rng, 1 if q else 3, 3, extra_unused=1):
+        # an unused module that carries the same record id as a used one (ids need not be unique)
+        for m in r["modules"]:
+            if m["id"].startswith("u"):
+                m["id"] = "m1"
+        r["twin"] = {"by": "perm", "order": list(range(len(r["modules"])))[::-1]}
+        rs.append(r)
     for r in ac.real_family_cases(rng, 1 if q else 4, 4):       # incomplete / duplicated sets
         x = rng.random()
         if x < 0.4 and len(r["modules"]) > 1:
